@@ -173,6 +173,8 @@ uint32 Server::Private::resolve(Resolver *resolver)
 
 Server::Timer *Server::Private::time(int64 interval, Timer::ICallback &callback)
 {
+  if (interval < 1)
+    interval = 1; // an interval of 0 would re-queue the timer at the same tick: the timer loop of run() would never end
   TimerImpl &timer = _timers.append<Timer::ICallback&, int64, int64>(callback, Time::ticks() + interval, interval);
   _queuedTimers.insert(timer.executionTime, &timer);
   return (Server::Timer *)&timer;
